@@ -130,6 +130,72 @@ def generate(ctx, r):
     return cases
 
 
+# ---- the byte-value sweep -----------------------------------------------------------------------------------
+# "bad byte" dimensions of the partition: (dimension, value) -> (number of byte values of the class, positions)
+BAD_SITES = {("tid", "nonhex"): (233, 32), ("sid", "nonhex"): (233, 16), ("ver", "vx"): (233, 2), ("fl", "fx"): (233, 2),
+             ("st", "sepbad"): (255, 3), ("lead", "junk"): (227, 1), ("tail", "junk"): (227, 1),
+             ("tail", "nodash"): (71, 1), ("tail", "dashweird"): (239, 4)}
+DEFAULT_TP = {"p": "present", "lead": "none", "trail": "none", "ver": "00", "tid": "ok", "sid": "ok", "fl": "hex2",
+              "tail": "none", "st": "ok", "cs": "lower"}
+BENIGN = {("ver", "hi"), ("cs", "upper"), ("cs", "mixed"), ("cs", "flupper"), ("lead", "ows"), ("lead", "otherws"),
+          ("trail", "ows"), ("trail", "otherws"), ("tail", "dash"), ("tail", "dashext"), ("ts", "one"), ("ts", "three")}
+
+
+def sweep_cases(ctx, cases):
+    """For every TLC line whose only malformation is ONE bad-byte class (alone, or with one benign
+    mutation such as a higher version / upper-case digits / surrounding white space), a copy marked
+    "sweep": the harness then enumerates every byte value of the class at every position of the field
+    ("rot": one position per byte value, rotating with the seed) instead of n random draws.  The
+    expectation stays the one TLC printed for the class."""
+    out = []
+    seen = {}
+    for cs in cases:
+        if cs["k"] != "x":
+            continue
+        tp = cs["car"]["tp"]
+        faults = [(d, tp[d]) for d in DEFAULT_TP if tp[d] != DEFAULT_TP[d]]
+        if cs["car"]["ts"] != "none":
+            faults.append(("ts", cs["car"]["ts"]))
+        bad = [f for f in faults if f in BAD_SITES]
+        rest = [f for f in faults if f not in BAD_SITES]
+        if len(bad) != 1 or len(rest) > 1 or any(f not in BENIGN for f in rest) or cs["exp"]["flags"] not in (0, 1):
+            continue
+        if tp["fb"] != 1:
+            continue
+        mode = "full" if (not rest or ctx.tier == "thorough") else "rot"
+        c = json.loads(json.dumps(cs))
+        c["orig"] = cs["id"]
+        c["id"] = 2 * 10 ** 9 + cs["id"]
+        c["sweep"] = mode
+        out.append(c)
+        if not rest:
+            seen[bad[0]] = c["id"]
+    missing = set(BAD_SITES) - set(seen)
+    if missing:
+        raise Broken("vacuity: no single-fault case to sweep for %s" % sorted(missing))
+    return out, seen
+
+
+def check_sweeps(ctx, sweeps, seen, results):
+    """Every bad-byte class must have been swept completely (all byte values x all positions)."""
+    cov = {}
+    runs = 0
+    for c in sweeps:
+        r = results.get(c["id"], {})
+        sw = r.get("sweep")
+        if sw:
+            runs += r.get("n", 0) if r.get("v") == "ok" else 0
+    for site, cid in sorted(seen.items()):
+        r = results.get(cid, {})
+        sw = r.get("sweep") or {}
+        nbytes, npos = BAD_SITES[site]
+        if r.get("v") == "ok" and (sw.get("bytes") != nbytes or sw.get("positions") != npos or sw.get("runs") != nbytes * npos
+                                   or r.get("n") != nbytes * npos):
+            raise Broken("byte sweep of %s incomplete: %s" % (site, sw))
+        cov["%s=%s" % site] = {"byte_values": nbytes, "positions": npos, "verdict": r.get("v")}
+    ctx.extra["byte_sweep"] = {"classes_swept_completely": cov, "sweep_cases": len(sweeps), "executions": runs}
+
+
 def canaries(cases):
     """Corrupted expectations: the harness MUST flag every one of them (binding is not vacuous)."""
     out = []
@@ -224,7 +290,11 @@ def replay_cases(ctx, exe, cases):
     n = 12 if ctx.tier == "thorough" else 3
     can = canaries(cases)
     cres = propagation.run_cases(ctx, exe, [c for _, c in can], n, procs=1, tag="canary")
+    sweeps, seen = sweep_cases(ctx, cases)
+    nbeh = len(cases)
+    cases = cases + sweeps
     results = propagation.run_cases(ctx, exe, cases, n, procs=4)
+    check_sweeps(ctx, sweeps, seen, results)
     for why, c in can:
         r = cres.get(c["id"])
         orig = results.get(c["orig"], {}).get("v")
@@ -237,13 +307,13 @@ def replay_cases(ctx, exe, cases):
     cnt = classify(ctx, cases, results, n)
     if not ctx.violations and (cnt["valid"] == 0 or cnt["unchanged"] == 0):
         raise Broken("vacuity: the real propagator never accepted / never rejected: %s" % cnt)
-    ctx.extra["replay"] = {"cases": len(cases), "concretisations_per_case": n, "verdicts": {k: cnt[k] for k in ("ok", "dev", "bad", "crash")},
+    ctx.extra["replay"] = {"cases": nbeh, "sweep_cases": len(sweeps), "concretisations_per_case": n, "verdicts": {k: cnt[k] for k in ("ok", "dev", "bad", "crash")},
                            "observed_valid": cnt["valid"], "observed_unchanged": cnt["unchanged"]}
-    ctx.traces += len(cases)
-    ctx.evaluations += len(cases) * n
+    ctx.traces += nbeh
+    ctx.evaluations += sum(r.get("n", 0) for r in results.values())
     for c in cases:
         ctx.distinct.add(("beh", c["id"]))
-    for cs in (cases[0], cases[len(cases) // 2], cases[-1]):
+    for cs in (cases[0], cases[nbeh // 2], cases[nbeh - 1]):
         ctx.sample({"kind": "TLC (abstract input, expected outcome) line, replayed %d times" % n,
                     "case": cs, "result": results.get(cs["id"])})
 
